@@ -13,6 +13,7 @@
        granularity at which the code holds the owner's fragment lock).
 -/
 import OlricModel.Props.C09
+import OlricModel.Generated.Facts
 namespace Olric.C08
 open Olric Olric.DMap Olric.C04 Olric.C09
 
@@ -698,6 +699,11 @@ theorem C08_lease_is_chk_fin (cfg : Cfg) (r : Route) (c : Cluster) (dm : Bytes) 
       (match leaseChk cfg r allReach c dm k tok now with
        | (c1, some e) => (c1, e)
        | (c1, none) => leaseFin cfg r allReach c1 dm k tok timeout now) := rfl
+
+/-- where the code finishes Unlock / Lease (regenerated from the source on every run): the token is compared
+    once more under the owner's fragment lock, together with the delete / the expiry update — the two
+    second-half steps `unlockFin` / `leaseFin` are atomic steps of that shape -/
+theorem facts_tie : Facts.lock_release_compares_under_fragment_lock = true := by decide
 
 /-! Non-vacuity: R = 2, a lock with a 500 ms timeout taken at t = 1 s through the model; a competitor at
     1.499 s is refused, at 1.5 s it acquires; the first holder's delayed Unlock then answers no-such-lock
